@@ -460,6 +460,8 @@ def check_frame(acc, fv, frame, payload_cc, sample=False, captured=False):
             if out[lo:hi] != frame[lo:hi]:
                 acc.violation(f"{path}:reserialised_{name}_differs", {**case, "got": out.hex()}, f"{name}: {frame[lo:hi].hex()} -> {out[lo:hi].hex()}")
     oc = o_kai.get("class") if "exception" not in o_kai else "exception"
+    if fv["dst"] == 0 and o_kai.get("target_radio_id") not in (0, None):
+        oc = f"{oc}+target_guessed_from_payload"  # documented sentinel behaviour of Burst.target_radio_id (see assumptions)
     acc.case(nontrivial=True, calls=calls, outcome=(SLOT_NAMES[fv["slot"]], oc), sample={"fv": fv, "frame": frame.hex()} if sample else None)
 
 
